@@ -49,7 +49,7 @@ GEN = {
             "the seven format markers on string fields, top level and nested; values: member / non-member corpora per language (incl. the seeded-change triggers: DEL in local part, U+0161, '{' host, control byte in UUID, Latin-1 bytes); fields also declared through an alias of string"),
     "C07": ("c07", "is", "Gvlean.Props.C07", ["Props.c07", "Props.c07_nil_iff", "Props.c07_nil_receiver", "Props.c07_is"], ["spec", "is", "nilrecv", "gen_fail", "build"],
             "random Clean structs: 1..8 fields, 0..4 documented markers per field from every family, optional nesting to depth 2, optional struct-level markers, 1-3 structs per package sharing field names; values: base vector, every candidate of every leaf one at a time, 12 random vectors; errors.Is against every exported Err* (plain and %w-wrapped), nil receiver; doc comments with prose before and AFTER the markers; structs of 49/66/100 fields with more than 64 rules (one all-valid vector, one violation per field, mixed vectors)"),
-    "C15": ("c07", "is,ctx", "Gvlean.Props.C15", ["Props.c15_cancelled", "Props.c15_already_done", "Props.c15_undisturbed", "Props.c15_wrappers", "Props.c15_skeleton", "Props.c15_any_checks_cancelled", "Props.c15_any_checks_already_done", "Props.c15_any_checks_undisturbed", "Props.c15_report_only_undisturbed", "Props.c15_template"], ["ctx", "wrappers", "unknown"],
+    "C15": ("c07", "is,ctx", "Gvlean.Props.C15", ["Props.c15_cancelled", "Props.c15_already_done", "Props.c15_undisturbed", "Props.c15_wrappers", "Props.c15_skeleton", "Props.c15_any_checks_cancelled", "Props.c15_any_checks_already_done", "Props.c15_any_checks_undisturbed", "Props.c15_report_only_undisturbed", "Props.c15_template"], ["ctx", "wrappers"],
             "the random Clean structs of C07; for every value a context that turns done at its k-th Err() call for every k from 0 to polls+1, Canceled and DeadlineExceeded; observed result and number of Err() calls compared with the contract and with the Lean model; wrappers Validate/ValidateT/ValidateContext(Background) compared with ValidateTContext"),
     "C16": ("c07", "mut,race", "Gvlean.Props.C16", ["Props.c16_write_set", "Props.c16_helpers_pure", "Props.c16_template"], ["mut", "unknown"],
             "the random Clean structs of C07; deep snapshot of the receiver (slice/map contents, pointer targets) before and after two Validate() calls, results compared, Value of every exported sentinel checked unset; statement forms of the generated file outside the template grammar are reported; the compiled validators built with -race and called from 2, 8 and 64 goroutines x 40 iterations on shared values and on private copies (quick: first driver chunk, thorough: all); CEL-bearing structs raced from 8 goroutines with per-goroutine inputs, receivers rendered before/after"),
